@@ -47,6 +47,7 @@ def queries(tier, seed):
         lens_t = sorted(set([0, 1, 2, 10, 14, 18, 26, 30, base - 1, base, base + pal - 1, base + pal, base + pal + 1, full - 1, full, full + 2] + list(range(base + pal, full))))
         if comp in (1, 2): lens_t = [full]
         for L in [x for x in lens_t if x >= 0]:
+            if bpp == 8 and comp == 0 and L not in (full, base + pal): lens_q = [full, base + pal]   # 8-bit palettes are padded to 256 entries: 65 s per query
             t = 'quick' if (L in lens_q and (common or (hdr != 40 and (w, h) == (3, 2) and bpp in (24, 8) and comp == 0 and ncol < 16) or (hdr == 40 and bpp in (24, 8) and comp == 0 and L == full))) else 'thorough'
             add('bmp', name, 'convert_image', 1, None, par, L, t)
             if pixt and comp == 0: add('bmp', name, 'read_image', 1, pixt, par, L, t if (w, h) == (3, 2) else 'thorough')
@@ -124,7 +125,7 @@ def queries(tier, seed):
                 d = dict(FORMAT=1, ENTRY=E['convert_image'], DEV=1)
                 qs.append(Q('bmp/convert_image/file/rle%d_%s/L%d' % (bpp, sn, L), 'C11/read.cpp', 'h_read', defs=d, params=p, rt=['file'], unwind=20,
                             unwindset=[(r'St6vector|fill_n|uninitialized|read_palette', 310)], rt_unwind=L + 4, mem_unwind=400, cdefs=dict(VP_FILE_MAX=L + 8),
-                            tier='quick' if (L == ds + len(st) and (bpp == 4 or sn in ('valid', 'cross_row', 'absolute'))) else 'thorough', timeout=300,
+                            tier='quick' if (L == ds + len(st) and ((bpp == 4 and sn != 'absolute') or sn in ('valid', 'cross_row'))) else 'thorough', timeout=300,
                             note='run-length structure concrete, colour indices symbolic'))
     # the same streams with concrete colour indices: the whole file is concrete, the symbolic executor just runs the decoder and the model
     # checker's object bounds are the oracle (this is a concrete test through the memory model, listed as such in the evidence)
@@ -136,7 +137,7 @@ def queries(tier, seed):
             hdrfill = list(range(2, 10)) + list(range(26, 28)) + list(range(34, 46)) + list(range(50, 70))   # remaining header / palette bytes
             par = [1, 40, bpp, comp, 3, 2, 4, ds, -1, ds, 0, 0, 0, 0] + [len(conc)] + conc
             qs.append(Q('bmp/convert_image/file/runlen%d_%s_concrete/L%d' % (bpp, sn, L), 'C11/read.cpp', 'h_read', defs=dict(FORMAT=1, ENTRY=E['convert_image'], DEV=1, CONCRETE_REST=1, EXPECT_OUTCOME=(1 if sn in ('valid', 'cross_row', 'long_run', 'absolute', 'delta') else 0)), params=[L] + par, rt=['file'], unwind=20,
-                        unwindset=[(r'St6vector|fill_n|uninitialized|read_palette', 310), (r'^F_h_read$', 130)], rt_unwind=L + 4, mem_unwind=400, cdefs=dict(VP_FILE_MAX=L + 8), tier='quick', timeout=300,
+                        unwindset=[(r'St6vector|fill_n|uninitialized|read_palette', 310), (r'^F_h_read$', 130)], rt_unwind=L + 4, mem_unwind=400, cdefs=dict(VP_FILE_MAX=L + 8), tier='quick' if (bpp == 4 or sn in ('valid', 'cross_row', 'absolute_odd_cross')) else 'thorough', timeout=300,
                         note='fully concrete file: decoder executed through the memory model (object bounds oracle), no symbolic data'))
     tga_streams = {   # 24-bit, 3x2 = 6 pixels; packet header: 0x80|(n-1) run of one pixel, n-1 raw pixels
         'valid':      [0x82, S, S, S, 0x02, S, S, S, S, S, S, S, S, S],
